@@ -1,8 +1,312 @@
 import GraafVerif.Driver.Common
-/-! Driver handlers for property C11 (ops the harness module `ops/c11.rs` emits). -/
-namespace GraafVerif.Driver.H11
-open GraafVerif GraafVerif.Driver
+import GraafVerif.Driver.ReprDesc
+import GraafVerif.Model.Ops
+import Std.Data.HashSet
+/-!
+Driver handlers for property C11 (ops the harness module `ops/c11.rs` emits).
 
-def handlers : List (String × Handler) := []
+    ops_complement D        => obs(D) obs(R) unchanged invol
+    ops_converse   D        => obs(D) obs(R) unchanged invol
+    ops_union      A B      => obs(A) obs(B) obs(R) unchanged comm idemA idemB
+    ops_union3     A B C    => obs(A) obs(B) obs(C) obs((A∪B)∪C) assoc
+    ops_filter     D pred   => obs(D) obs(R) unchanged
+
+`obs` = `[order [vertices] [arcs]]` as the REAL code shows it.  The model recomputes the whole
+output (correspondence); the oracle evaluates the set definitions of C11 on the observed
+operands / result only (it never looks at the model).
+-/
+namespace GraafVerif.Driver.H11
+open GraafVerif GraafVerif.Driver GraafVerif.Repr GraafVerif.Ops
+
+/-! ## Model side: one sum type over the five representations -/
+
+inductive G where
+  | al (g : AdjList) | am (g : AdjMap) | mx (g : AdjMatrix) | el (g : EdgeList) | w (g : AdjListW)
+  deriving DecidableEq
+
+def G.obs : G → V
+  | .al g => obsAL g | .am g => obsAM g | .mx g => obsMX g | .el g => obsEL g | .w g => obsWL g
+
+def build (d : GDesc) : Option G :=
+  match d.repr with
+  | "al" => (buildAL d).map .al
+  | "am" => (buildAM d).map .am
+  | "mx" => (buildMX d).map .mx
+  | "el" => (buildEL d).map .el
+  | "wu" | "wi" => (buildW d).map .w
+  | _ => none
+
+/-- `some none` = the model says the code panics; outer `none` = the representation does not
+implement the operation (malformed case). -/
+def complementG (ap : Nat) : G → Option (Option G)
+  | .al g => some ((complementAL g ap).map .al)
+  | .am g => some (some (.am (complementAM g)))
+  | .mx g => some ((complementMX g).map .mx)
+  | .el g => some (some (.el (complementEL g)))
+  | .w _ => none
+
+def converseG : G → Option (Option G)
+  | .al g => some ((converseAL g).map .al)
+  | .am g => some (some (.am (converseAM g)))
+  | .mx g => some ((converseMX g).map .mx)
+  | .el g => some (some (.el (converseEL g)))
+  | .w g => some ((converseW g).map .w)
+
+def unionG (ap : Nat) : G → G → Option (Option G)
+  | .al a, .al b => some ((unionAL a b ap).map .al)
+  | .am a, .am b => some ((unionAM a b ap).map .am)
+  | .mx a, .mx b => some ((unionMX a b).map .mx)
+  | .el a, .el b => some ((unionEL a b).map .el)
+  | _, _ => none
+
+def parsePred : V → Option (Nat → Bool)
+  | .l [.a "ge", k] => do let k ← V.nat? k; pure (fun v => v ≥ k)
+  | .l [.a "lt", k] => do let k ← V.nat? k; pure (fun v => v < k)
+  | .l [.a "mod", m, r] => do
+    let m ← V.nat? m; let r ← V.nat? r
+    if m = 0 then none else pure (fun v => v % m == r)
+  | .l [.a "in", xs] => do let xs ← V.listOf? V.nat? xs; pure (fun v => xs.contains v)
+  | .a "none" => some (fun _ => false)
+  | .a "all" => some (fun _ => true)
+  | _ => none
+
+/-! ## Oracle side: set definitions on observations -/
+
+structure Obs where
+  order : Nat
+  verts : List Nat
+  arcs : List (Nat × Nat)
+  /-- weights, parallel to `arcs` (empty for unweighted) -/
+  ws : List Int
+
+def parseArc : V → Option ((Nat × Nat) × Option Int)
+  | .l [u, v] => do pure ((← V.nat? u, ← V.nat? v), none)
+  | .l [u, v, w] => do pure ((← V.nat? u, ← V.nat? v), some (← V.int? w))
+  | _ => none
+
+def Obs.parse : V → Option Obs
+  | .l [n, vs, as] => do
+    let n ← V.nat? n
+    let vs ← V.listOf? V.nat? vs
+    let as ← V.listOf? parseArc as
+    pure ⟨n, vs, as.map (·.1), as.filterMap (·.2)⟩
+  | _ => none
+
+abbrev NSet := Std.HashSet Nat
+abbrev PSet := Std.HashSet (Nat × Nat)
+
+def nset (l : List Nat) : NSet := Std.HashSet.ofList l
+def pset (l : List (Nat × Nat)) : PSet := Std.HashSet.ofList l
+
+def check (c : Bool) (msg : String) : Option String := if c then none else some msg
+
+def firstFail (l : List (Option String)) : Option String := l.findSome? id
+
+/-- "valid digraph": order = |V|, no self-loop, no endpoint outside the vertex set. -/
+def validity (r : Obs) : Option String :=
+  let vs := nset r.verts
+  firstFail [
+    check (r.order == vs.size) "result: order differs from the number of vertices",
+    check (r.arcs.all (fun a => a.1 != a.2)) "result has a self-loop",
+    check (r.arcs.all (fun a => vs.contains a.1 && vs.contains a.2)) "result has an arc endpoint outside its vertex set" ]
+
+def sameSet (a b : List Nat) : Bool :=
+  let sa := nset a; let sb := nset b
+  a.all sb.contains && b.all sa.contains
+
+def samePSet (a b : List (Nat × Nat)) : Bool :=
+  let sa := pset a; let sb := pset b
+  a.all sb.contains && b.all sa.contains
+
+def oracleComplement (d r : Obs) : Option String :=
+  let A := pset d.arcs; let R := pset r.arcs
+  firstFail [ validity r,
+    check (sameSet d.verts r.verts) "complement: vertex set changed",
+    check (d.verts.all (fun u => d.verts.all (fun v =>
+      (u != v && !A.contains (u, v)) == R.contains (u, v))))
+      "complement: some pair u,v of V has u->v in the result although u = v or u->v in A, or lacks it although u != v and u->v not in A" ]
+
+def oracleConverse (d r : Obs) : Option String :=
+  firstFail [ validity r,
+    check (sameSet d.verts r.verts) "converse: vertex set changed",
+    check (samePSet (d.arcs.map (fun a => (a.2, a.1))) r.arcs) "converse: arc set is not the set of reversed arcs",
+    -- weights carried over (weighted representation only)
+    check (d.ws.isEmpty && r.ws.isEmpty ||
+      (let W : Std.HashSet (Nat × Nat × Int) := Std.HashSet.ofList ((d.arcs.zip d.ws).map (fun x => (x.1.2, x.1.1, x.2)))
+       let rw := (r.arcs.zip r.ws).map (fun x => (x.1.1, x.1.2, x.2))
+       rw.all W.contains && rw.length == d.arcs.length && r.ws.length == r.arcs.length))
+      "converse: a weight was not carried over" ]
+
+def oracleUnion (a b r : Obs) : Option String :=
+  firstFail [ validity r,
+    check (sameSet (a.verts ++ b.verts) r.verts) "union: vertex set is not V(D) u V(E)",
+    check (samePSet (a.arcs ++ b.arcs) r.arcs) "union: arc set is not A(D) u A(E)" ]
+
+def oracleFilter (p : Nat → Bool) (d r : Obs) : Option String :=
+  firstFail [ validity r,
+    check (sameSet (d.verts.filter p) r.verts) "filter_vertices: vertex set is not {v in V : p(v)}",
+    check (samePSet (d.arcs.filter (fun a => p a.1 && p a.2)) r.arcs) "filter_vertices: arc set is not the induced one" ]
+
+def flagTrue (name : String) (v : V) : Option String :=
+  check (v == V.ofBool true) s!"{name} is false on the real code"
+
+/-! ## Handlers -/
+
+def panicOut : List V := [.a "panic"]
+
+def descTags (d : GDesc) : List String :=
+  [d.repr, sizeTag d.order] ++
+    (if d.repr == "am" && d.verts != List.range d.order then ["sparse-ids"] else [])
+
+def tTag (d : GDesc) (t : Nat) : List String :=
+  if d.repr == "al" || d.repr == "am" then [if d.order > t then "rows>t" else "rows<=t"] else []
+
+/-- C11 speaks about digraphs: every operand description must denote one (order ≥ 1, every arc a
+non-loop between vertices — i.e. the build through `add_arc` does not panic).  Anything else (a
+shrinking artefact, a hand-written line) is compared with the model only. -/
+def applicable (ds : List GDesc) : Bool := ds.all (fun d => d.order ≥ 1 && (build d).isSome)
+
+def inapp (ds : List GDesc) : List String := if applicable ds then [] else ["not-a-digraph"]
+
+def hUnary (opname : String) (f : Nat → G → Option (Option G)) (orc : Obs → Obs → Option String) : Handler :=
+  fun t args obs =>
+  match args with
+  | [dv] => do
+    let d ← GDesc.parse dv
+    let tags := opname :: descTags d ++ tTag d t
+    let nt := d.order ≥ 2 && !d.arcs.isEmpty
+    let model : List V :=
+      match build d with
+      | none => panicOut
+      | some g =>
+        match f t g with
+        | none => [.a "unsupported"]
+        | some none => panicOut
+        | some (some r) =>
+          let invol := match f t r with
+            | some (some rr) => decide (rr = g)
+            | _ => false
+          [g.obs, r.obs, V.ofBool true, V.ofBool invol]
+    let propFail : Option String :=
+      if !applicable [d] then none else
+      match obs with
+      | [od, or, unch, invol] =>
+        match Obs.parse od, Obs.parse or with
+        | some od, some or =>
+          firstFail [orc od or, flagTrue "operand unchanged" unch, flagTrue s!"{opname} o {opname} == id" invol]
+        | _, _ => some "unparsable observation"
+      | _ => some s!"{opname} did not return (panic) on a valid digraph"
+    pure (classify obs model propFail (nt && applicable [d]) (tags ++ inapp [d]))
+  | _ => none
+
+def hUnion : Handler := fun t args obs =>
+  match args with
+  | [av, bv] => do
+    let a ← GDesc.parse av
+    let b ← GDesc.parse bv
+    if a.repr != b.repr then none
+    let tags := "union" :: descTags a ++ tTag (if a.order ≥ b.order then a else b) t ++
+      [if a.order == b.order then "eq-order" else "diff-order"] ++
+      (if a.repr == "am" then [if a.verts == b.verts then "same-keys" else "other-keys"] else [])
+    let nt := (a.order ≥ 2 || b.order ≥ 2) && !(a.arcs.isEmpty && b.arcs.isEmpty)
+    let model : List V :=
+      match build a, build b with
+      | some ga, some gb =>
+        match unionG t ga gb, unionG t gb ga, unionG t ga ga, unionG t gb gb with
+        | some (some r), some (some r'), some (some raa), some (some rbb) =>
+          [ga.obs, gb.obs, r.obs, V.ofBool true, V.ofBool (decide (r = r')),
+           V.ofBool (decide (raa = ga)), V.ofBool (decide (rbb = gb))]
+        | none, _, _, _ => [.a "unsupported"]
+        | _, _, _, _ => panicOut
+      | _, _ => panicOut
+    let propFail : Option String :=
+      if !applicable [a, b] then none else
+      match obs with
+      | [oa, ob, or, unch, comm, ia, ib] =>
+        match Obs.parse oa, Obs.parse ob, Obs.parse or with
+        | some oa, some ob, some or =>
+          firstFail [oracleUnion oa ob or, flagTrue "operands unchanged" unch, flagTrue "A u B == B u A" comm,
+            flagTrue "A u A == A" ia, flagTrue "B u B == B" ib]
+        | _, _, _ => some "unparsable observation"
+      | _ => some "union did not return (panic) on valid digraphs"
+    pure (classify obs model propFail (nt && applicable [a, b]) (tags ++ inapp [a, b]))
+  | _ => none
+
+def hUnion3 : Handler := fun t args obs =>
+  match args with
+  | [av, bv, cv] => do
+    let a ← GDesc.parse av
+    let b ← GDesc.parse bv
+    let c ← GDesc.parse cv
+    if a.repr != b.repr || b.repr != c.repr then none
+    let tags := "union3" :: descTags a
+    let nt := !(a.arcs.isEmpty && b.arcs.isEmpty && c.arcs.isEmpty)
+    let model : List V :=
+      match build a, build b, build c with
+      | some ga, some gb, some gc =>
+        let l := do
+          let ab ← (← unionG t ga gb)
+          let abc ← (← unionG t ab gc)
+          pure abc
+        let r := do
+          let bc ← (← unionG t gb gc)
+          let abc ← (← unionG t ga bc)
+          pure abc
+        match l, r with
+        | some l, some r => [ga.obs, gb.obs, gc.obs, l.obs, V.ofBool (decide (l = r))]
+        | _, _ => panicOut
+      | _, _, _ => panicOut
+    let propFail : Option String :=
+      if !applicable [a, b, c] then none else
+      match obs with
+      | [oa, ob, oc, or, assoc] =>
+        match Obs.parse oa, Obs.parse ob, Obs.parse oc, Obs.parse or with
+        | some oa, some ob, some oc, some or =>
+          firstFail [oracleUnion ⟨0, oa.verts ++ ob.verts, oa.arcs ++ ob.arcs, []⟩ oc or,
+            flagTrue "(A u B) u C == A u (B u C)" assoc]
+        | _, _, _, _ => some "unparsable observation"
+      | _ => some "union did not return (panic) on valid digraphs"
+    pure (classify obs model propFail (nt && applicable [a, b, c]) (tags ++ inapp [a, b, c]))
+  | _ => none
+
+def predTag : V → String
+  | .l (.a "ge" :: _) | .l (.a "lt" :: _) => "pred-range"
+  | .l (.a k :: _) => "pred-" ++ k
+  | .a _ => "pred-const"
+  | _ => "pred-?"
+
+def hFilter : Handler := fun _ args obs =>
+  match args with
+  | [dv, pv] => do
+    let d ← GDesc.parse dv
+    let p ← parsePred pv
+    if d.repr != "am" then none
+    let kept := (d.verts.filter p).length
+    let tags := ["filter", predTag pv] ++ descTags d ++
+      [if kept == 0 then "keeps-none" else if kept == d.order then "keeps-all" else "keeps-some"]
+    let nt := d.order ≥ 2 && !d.arcs.isEmpty && 0 < kept && kept < d.order
+    let model : List V :=
+      match buildAM d with
+      | none => panicOut
+      | some g => [obsAM g, obsAM (filterAM g p), V.ofBool true]
+    let propFail : Option String :=
+      if !applicable [d] then none else
+      match obs with
+      | [od, or, unch] =>
+        match Obs.parse od, Obs.parse or with
+        | some od, some or =>
+          -- an empty selection is not a digraph: only the set definition is demanded of it
+          firstFail [oracleFilter p od or, flagTrue "operand unchanged" unch]
+        | _, _ => some "unparsable observation"
+      | _ => some "filter_vertices did not return (panic) on a valid digraph"
+    pure (classify obs model propFail (nt && applicable [d]) (tags ++ inapp [d]))
+  | _ => none
+
+def handlers : List (String × Handler) := [
+  ("ops_complement", hUnary "complement" complementG oracleComplement),
+  ("ops_converse", hUnary "converse" (fun _ => converseG) oracleConverse),
+  ("ops_union", hUnion),
+  ("ops_union3", hUnion3),
+  ("ops_filter", hFilter) ]
 
 end GraafVerif.Driver.H11
